@@ -1008,12 +1008,13 @@ http_data_decode_chunked(uint8_t *data, size_t data_size,
     uint8_t **data_ret, size_t *data_ret_size) {
 	uint8_t *cur_pos, *end_line, *max_pos;
 	uint8_t *cur_wr_pos;
-	size_t ret_size, tm;
+	size_t ret_size, tm, hex_cnt;
 
 	cur_pos = data;
 	max_pos = (data + data_size);
 	ret_size = 0;
 	cur_wr_pos = NULL;
+	(*data_ret) = data; /* Empty body ("0" CRLF CRLF): points into data too. */
 	for (;;) {
 		end_line = mem_find_ptr_cstr(cur_pos, data, data_size, CRLF);
 		if (NULL == end_line) {
@@ -1022,6 +1023,20 @@ http_data_decode_chunked(uint8_t *data, size_t data_size,
 				return (EINVAL);
 			break; /* Normal exit. */
 		}
+		/* More than 2 * sizeof(size_t) significant hex digits wrap in
+		 * ustrh2usize(): size that does not fit size_t is not a size. */
+		hex_cnt = 0;
+		for (tm = 0; tm < (size_t)(end_line - cur_pos); tm ++) {
+			if (('0' <= cur_pos[tm] && '9' >= cur_pos[tm]) ||
+			    ('a' <= cur_pos[tm] && 'f' >= cur_pos[tm]) ||
+			    ('A' <= cur_pos[tm] && 'F' >= cur_pos[tm])) {
+				if (0 != hex_cnt || '0' != cur_pos[tm]) {
+					hex_cnt ++;
+				}
+			}
+		}
+		if ((2 * sizeof(size_t)) < hex_cnt)
+			return (EINVAL);
 		tm = ustrh2usize(cur_pos, (size_t)(end_line - cur_pos));
 		if (0 == tm)
 			break; /* Normal exit. */
